@@ -83,6 +83,9 @@ CONSTANTS NArb,      \* worker arbiters 1..NArb (0 is the system arbiter)
           RxDropAtLoopEnd, \* design TRUE; FALSE: the arbiter's receiver is dropped only when its thread exits: between
                      \* the end of the loop and the exit, sends still report true and are discarded
           DequeueBatch, \* design 0; K > 0: the arbiter loop handles at most K commands per poll, then sleeps for good
+          StopAlwaysHandled, \* design TRUE; FALSE: a Stop that arrives while the loop is in the middle of a poll (after the
+                     \* drain found the channel empty) may be taken by the poll's last receive, which only looks at Execute
+                     \* commands: the Stop is dropped, stop() has reported true, the loop goes on
           QueueCap   \* design 0 (unbounded channel); K > 0: an arbiter's command channel holds at most K commands, a
                      \* push into a full one is refused (spawn / stop report false; the controller ignores the result)
 
@@ -294,6 +297,15 @@ ArbDequeue(a) ==
   /\ act' = A("ArbDequeue", a, 0)
   /\ UNCHANGED <<thr, tasks, sysq, ctrl, oneshot, runst, ntask, ncmd, nsys>>
 
+\* wrong design StopAlwaysHandled = FALSE only: the Stop at the head of the channel is taken and dropped (whether a Stop
+\* arrives inside that window of a poll is a matter of timing the model does not see: any Stop may).  Driver: flavour
+\* "c10-stoprace" (stop() from another thread while the loop is kept being polled, probe commands behind it).
+ArbDropStop(a) ==
+  /\ ~StopAlwaysHandled /\ CanStep(a) /\ arb[a].cmdq # <<>> /\ ~arb[a].stuck /\ Head(arb[a].cmdq).k = "stop"
+  /\ arb' = [arb EXCEPT ![a].cmdq = Tail(@)]
+  /\ act' = A("ArbDropStop", a, 0)
+  /\ UNCHANGED <<thr, tasks, sysq, ctrl, oneshot, runst, ntask, ncmd, nsys, h>>
+
 \* wrong design only: the loop ends when a Stop was seen and the channel is drained
 ArbDrainEnd(a) ==
   /\ ~StopEndsLoop /\ CanStep(a) /\ arb[a].stopping /\ arb[a].cmdq = <<>>
@@ -441,7 +453,7 @@ RunReturn ==
   /\ UNCHANGED <<thr, tasks, oneshot, ntask, ncmd, nsys>>
 
 Internal == \/ \E t \in Thr : Enq(t) \/ SendEnd(t)
-            \/ \E a \in Arbs : ArbLateRegister(a) \/ ArbDequeue(a) \/ ArbDrainEnd(a) \/ ArbStartTask(a) \/ ArbYield(a) \/ ArbDeregister(a)
+            \/ \E a \in Arbs : ArbLateRegister(a) \/ ArbDequeue(a) \/ ArbDropStop(a) \/ ArbDrainEnd(a) \/ ArbStartTask(a) \/ ArbYield(a) \/ ArbDeregister(a)
             \/ CtrlStep \/ RunEnter \/ RunReturn
 Next == \/ Internal
         \/ \E t \in Thr : Issue(t) \/ CallAtomic(t)
